@@ -3,7 +3,14 @@
 (* (32 flag sets x 5 widths x 7 precisions x 13 conversions) on a few          *)
 (* arguments each: the machine picks a conversion and an argument (Init), then  *)
 (* flags, width and precision (Pick); the laws are invariants of the picked     *)
-(* case.                                                                        *)
+(* case.  The argument-kind dimension: every conversion is also applied to text *)
+(* from input (strnum) on the small grid of PrintfCases; KindLaws says what the  *)
+(* statement says about it (a numeric-looking input text behaves as the number   *)
+(* it denotes under every conversion, any other input text as the string         *)
+(* constant of the same spelling; %s keeps the text).  print: PrintLaws (the     *)
+(* text of a number under an OFMT "%.Ng" / "%.Nf" / "%.Ne" is the number ->      *)
+(* string conversion of Values.tla; integral numbers ignore OFMT; the output     *)
+(* mode only changes how the texts are joined).                                   *)
 EXTENDS PrintfCases, TLC
 
 CONSTANT McFull          \* FALSE: two arguments per conversion class (quick tier)
@@ -25,10 +32,18 @@ McArgs(vb) == IF McFull THEN McArgsFull(vb)
               ELSE IF vb = c_s THEN {VStr(<<c_a, c_b, c_c>>), VNum(Dec(TRUE, <<1, 2, 5>>, 0 - 3))}
               ELSE {VNum(NatNum(65)), VStr(<<c_a, c_b, c_c>>)}
 
-Init == /\ verb \in Verbs /\ v \in McArgs(verb) /\ chars = FALSE
-        /\ flags = {} /\ wi = 1 /\ pi = 1 /\ st = "picked-arg"
+\* input texts: numeric-looking (plain, blank-padded, exponent form), numeric prefix only, non-numeric
+McInputs == IF McFull THEN {VStrnum(str) : str \in InputTexts}
+            ELSE {VStrnum(<<SP, D6, D5, SP>>), VStrnum(<<D6, DOT, D5, c_e, D1>>), VStrnum(<<D6, D5, c_a, c_b, c_c>>), VStrnum(<<c_a, c_b, c_c>>)}
+McPrintOfmts == << [verb |-> "g", prec |-> 6], [verb |-> "f", prec |-> 2], [verb |-> "e", prec |-> 3], [verb |-> "g", prec |-> 3], [verb |-> "f", prec |-> 0] >>
+
+Init == \/ /\ verb \in Verbs /\ v \in McArgs(verb) \cup McInputs /\ chars = FALSE
+           /\ flags = {} /\ wi = 1 /\ pi = 1 /\ st = "picked-arg"
+        \/ /\ verb = 0 /\ v \in PrintLists /\ chars = FALSE /\ flags = {} /\ wi = 1 /\ pi = 1 /\ st = "print"
 Pick == /\ st = "picked-arg" /\ st' = "case"
-        /\ flags' \in SUBSET FlagChars /\ wi' \in 1..Len(WOpts) /\ pi' \in 1..Len(POpts)
+        /\ flags' \in (IF v.tag = "strnum" THEN KFlags(FALSE) ELSE SUBSET FlagChars)
+        /\ wi' \in (IF v.tag = "strnum" THEN KWs(FALSE) ELSE 1..Len(WOpts))
+        /\ pi' \in (IF v.tag = "strnum" THEN KPs(FALSE, c_d) ELSE 1..Len(POpts))
         /\ UNCHANGED <<verb, v, chars>>
 Spec == Init /\ [][Pick]_vars
 
@@ -84,4 +99,28 @@ SignLaws == st = "case" /\ wi = 1 /\ flags \cap {PLUS, SP} # {} =>
   LET r == Res
       plain == Format(CaseFmt(MkDir(flags \ {PLUS, SP}, wi, pi, verb)), CaseArgs(wi, pi, v), chars, Cf6)
   IN ~IsUnmStr(r.out) /\ ~IsUnmStr(plain.out) => Len(r.out) - Len(plain.out) \in {0, 1}
+\* the kind of the argument: input text that looks numeric is the number it denotes, under every conversion
+\* but s; input text that does not is the string constant of the same spelling; s keeps the text
+AsKind(w) == Format(CaseFmt(D), CaseArgs(wi, pi, w), chars, Cf6)
+KindLaws == st = "case" /\ v.tag = "strnum" /\ ~OpenArg(v) =>
+  LET r == Res
+      wp == WholeParse(v.s, GoawkDialect)
+  IN /\ verb = c_s => r = AsKind(VStr(v.s))
+     /\ verb # c_s /\ wp.t = "str" => r = AsKind(VStr(v.s))
+     /\ verb # c_s /\ wp.t \notin {"str", "unm"} => r = AsKind(VNum(wp))
+\* print
+PrintLaws == st = "print" =>
+  /\ \A j \in 1..Len(McPrintOfmts) : \A k \in 1..Len(v) :
+        v[k].tag = "num" => NumToText(v[k].n, CfText(McPrintOfmts[j])) = NumToStr(v[k].n, McPrintOfmts[j])
+  /\ \A of \in OFmtTexts :
+        LET dl == PrintLine(v, of, "default", <<COMMA>>, <<LF>>)
+            cl == PrintLine(v, of, "csv", <<SP>>, <<LF>>)
+            tl == PrintLine(v, of, "tsv", <<SP>>, <<LF>>)
+            texts == [k \in 1..Len(v) |-> PrintText(v[k], of)]
+        IN ~IsUnmStr(dl) =>
+             \* integral numbers and everything that is not a number do not depend on OFMT
+             /\ \A k \in 1..Len(v) : (v[k].tag # "num" \/ InInt64(v[k].n)) => texts[k] = PrintText(v[k], <<PCT, DOT, D6, c_g>>)
+             \* the mode joins the same texts: without anything to quote, CSV is the default line with OFS = ","
+             /\ (\A k \in 1..Len(v) : ~NeedsQuotes(texts[k], <<COMMA>>)) /\ texts # << <<>> >> => cl = dl
+             /\ Len(tl) >= Len(Join(texts, <<TAB>>)) + 1
 =============================================================================
